@@ -593,6 +593,7 @@ def gen_C08(tier, rng):
     # Expression::rename_literals (substitution of variables by variables): every map with keys among {a, b, z} and
     # values among {a, b, c, z} of at most two entries (identity, swap, merge, foreign key, chain a->b b->c) on every
     # function of <= 2 variables in three shapes, and random maps on random trees with constants and empty nodes
+    rs = random.Random(rng.getstate()[1][1] + 8)    # a side stream: the draws below must not shift the streams that follow
     vals = ["a", "b", "c", "z"]
     rmaps = [[]] + [[(k, v)] for k in ["a", "b", "z"] for v in vals]
     rmaps += [[(k1, v1), (k2, v2)] for k1, k2 in [("a", "b"), ("a", "z"), ("b", "z")] for v1 in vals for v2 in vals]
@@ -610,13 +611,13 @@ def gen_C08(tier, rng):
     for _ in range(60 if tier == "quick" else 600):
         c = Case("c08_%d" % n); n += 1
         pool_ = ["a", "b", "c", "d", "e"]
-        r = c.r("expr " + pe(gen.rand_tree(rng, rng.randint(1, 4), pool_, max_arity=3, consts=True, empties=True)))
+        r = c.r("expr " + pe(gen.rand_tree(rs, rs.randint(1, 4), pool_, max_arity=3, consts=True, empties=True)))
         # also on the result of operations (derived operands), and renamed twice
-        r2 = c.r("op2 xor val %d %d" % (r, c.r("expr " + pe(gen.rand_tree(rng, 2, pool_, max_arity=2, consts=False, empties=False)))))
+        r2 = c.r("op2 xor val %d %d" % (r, c.r("expr " + pe(gen.rand_tree(rs, 2, pool_, max_arity=2, consts=False, empties=False)))))
         for reg_ in (r, r2):
             for _k in range(3):
-                ks = rng.sample(pool_ + ["z"], rng.randint(0, 4))
-                m = sorted((k, rng.choice(pool_ + ["z", "0"])) for k in ks)
+                ks = rs.sample(pool_ + ["z"], rs.randint(0, 4))
+                m = sorted((k, rs.choice(pool_ + ["z", "0"])) for k in ks)
                 c.q("rename %d %s" % (reg_, rtoks(m)))
         dist["rename_random"] += 1
         cases.append(c.done("rename random", True))
@@ -667,7 +668,7 @@ def gen_enum(prefix, tier, rng, maxv, pads):
                 # the two neighbouring lengths
                 regs_ = three_reps(c, es[0])
                 for ln_ in sorted({max(nv - 1, 0), nv, nv + 1}):
-                    pb = "".join(rng.choice("01") for _ in range(ln_)) or "."
+                    pb = "".join("01"[(n * 7 + ln_ * 3 + j_ * 5) % 3 % 2] for j_ in range(ln_)) or "."    # no draw from rng
                     c.q("p2v %d %s" % (regs_[0], pb)); c.q("p2v %d %s" % (regs_[1], pb))
             dist["vars%d" % nv] += 1
             from .diff import expand
@@ -1557,7 +1558,7 @@ def gen_C19(tier, rng):
                 k = c.r("conv %s %d" % (tgt, x)); c.q("obs %d" % k)
         # comparisons whose answer is YES: the same function declared over one more input (sorting before, between
         # or after the others), in both directions and with itself -- a random pair is almost never equivalent
-        pad_ = rng.choice(["0", "ab", "zz"])
+        pad_ = ["0", "ab", "zz"][n % 3]    # no draw from rng: the programs that follow stay what they were
         pregs = py_reps(c, gen.A([e, gen.O([gen.L(pad_), gen.Nn(gen.L(pad_))])]))
         for x, y in zip(regs, pregs):
             for a_, b_ in ((x, y), (y, x), (x, x)):
